@@ -174,6 +174,17 @@ pub fn inputs(ctx: &mut Ctx) -> Vec<Vec<u8>> {
             v.push(b);
         }
     }
+    // every 15th run: two inputs beyond 64 KiB that agree on their first 65 600 bytes
+    if ctx.ch.chance(1, 15) {
+        let mut a = ctx.ch.bytes(70_000);
+        a[0] = 0xEE;
+        let mut b = a.clone();
+        b[69_999] ^= 0x01;
+        b[65_700] ^= 0x80;
+        v.push(a);
+        v.push(b);
+        ctx.stats.probe("runs_with_inputs_over_64KiB");
+    }
     // two different inputs of EQUAL length (history-dependent client state keyed on length/address shows here)
     let mut twin = v[0].clone();
     if twin.is_empty() {
